@@ -608,3 +608,359 @@ fc_logical_bytes(fc_file *f, const fc_dd *d, long *len, int *unsupported)
         *unsupported = 1;
     return NULL;
 }
+
+/* ====================================================================== object level (Vdata header, Vgroup, chunked) */
+/* VH record: int16 interlace, int32 nvert, uint16 ivsize, int16 nfields, nfields x int16 type, x uint16 isize, x uint16 off,
+ *            x uint16 order, nfields x (int16 len, name), int16 len + name, int16 len + class, uint16 extag, exref,
+ *            int16 version, int16 more, [version 4: uint32 flags, if bit0: int32 nattrs, nattrs x (int32 findex, uint16 tag, ref)],
+ *            int16 version, int16 more, one spare byte */
+int
+fc_vdata_header(fc_file *f, const fc_dd *d, fc_vh *h)
+{
+    memset(h, 0, sizeof *h);
+    if (d->off < 0 || d->len < 10 || (long)d->off + d->len > f->size)
+        return -1;
+    const uint8_t *p = f->b + d->off, *end = p + d->len;
+#define NEED(n)                                                                                                                      \
+    if (end - p < (n))                                                                                                               \
+    return -1
+    NEED(10);
+    h->interlace = (int16_t)be16(p);
+    h->nvert     = be32(p + 2);
+    h->ivsize    = be16(p + 6);
+    h->nfields   = (int16_t)be16(p + 8);
+    p += 10;
+    if (h->nfields < 0 || h->nfields > FC_MAXFIELDS)
+        return -1;
+    NEED(8L * h->nfields);
+    for (int i = 0; i < h->nfields; i++) {
+        h->type[i]  = (int16_t)be16(p + 2 * i);
+        h->isize[i] = be16(p + 2 * (h->nfields + i));
+        h->off[i]   = be16(p + 2 * (2 * h->nfields + i));
+        h->order[i] = be16(p + 2 * (3 * h->nfields + i));
+    }
+    p += 8L * h->nfields;
+    for (int i = 0; i < h->nfields; i++) {
+        NEED(2);
+        int l = (int16_t)be16(p);
+        p += 2;
+        if (l < 0 || l > 128)
+            return -1;
+        NEED(l);
+        memcpy(h->fname[i], p, (size_t)l);
+        h->fname[i][l] = 0;
+        p += l;
+    }
+    for (int k = 0; k < 2; k++) {
+        NEED(2);
+        int l = (int16_t)be16(p);
+        p += 2;
+        if (l < 0 || l > 64)
+            return -1;
+        NEED(l);
+        memcpy(k ? h->cls : h->name, p, (size_t)l);
+        (k ? h->cls : h->name)[l] = 0;
+        p += l;
+    }
+    NEED(8);
+    h->extag   = be16(p);
+    h->exref   = be16(p + 2);
+    h->version = (int16_t)be16(p + 4);
+    p += 8;
+    if (h->version == 4) {
+        NEED(4);
+        uint32_t flags = (uint32_t)be32(p);
+        p += 4;
+        if (flags & 1) {
+            NEED(4);
+            h->nattrs = be32(p);
+            p += 4;
+            if (h->nattrs < 0 || h->nattrs > FC_MAXATTRS)
+                return -1;
+            NEED(8L * h->nattrs);
+            for (int i = 0; i < h->nattrs; i++) {
+                h->afindex[i] = be32(p);
+                h->atag[i]    = be16(p + 4);
+                h->aref[i]    = be16(p + 6);
+                p += 8;
+            }
+        }
+    }
+    return 0;
+#undef NEED
+}
+
+/* VG record: uint16 nvelt, nvelt x uint16 tag, nvelt x uint16 ref, uint16 len + name, uint16 len + class, uint16 extag, exref,
+ *            [version 4: uint32 flags, if bit0: int32 nattrs, nattrs x (uint16 tag, ref)], uint16 version, uint16 more, spare byte */
+int
+fc_vgroup(fc_file *f, const fc_dd *d, fc_vg *g)
+{
+    memset(g, 0, sizeof *g);
+    if (d->off < 0 || d->len < 2 || (long)d->off + d->len > f->size)
+        return -1;
+    const uint8_t *p = f->b + d->off, *end = p + d->len;
+    g->nvelt         = be16(p);
+    p += 2;
+    if (end - p < 4L * g->nvelt + 4)
+        return -1;
+    g->tag = malloc(2 * (size_t)(g->nvelt + 1));
+    g->ref = malloc(2 * (size_t)(g->nvelt + 1));
+    for (int i = 0; i < g->nvelt; i++) {
+        g->tag[i] = be16(p + 2 * i);
+        g->ref[i] = be16(p + 2 * (g->nvelt + i));
+    }
+    p += 4L * g->nvelt;
+    for (int k = 0; k < 2; k++) {
+        if (end - p < 2)
+            goto bad;
+        long l = be16(p);
+        p += 2;
+        if (end - p < l)
+            goto bad;
+        char *s = malloc((size_t)l + 1);
+        memcpy(s, p, (size_t)l);
+        s[l] = 0;
+        if (k)
+            g->cls = s;
+        else
+            g->name = s;
+        p += l;
+    }
+    if (end - p < 4 + 4)
+        goto bad;
+    p += 4; /* extag, exref */
+    /* the version sits in the last five bytes */
+    g->version = be16(end - 5);
+    if (g->version == 4 && end - p >= 4 + 5) {
+        uint32_t flags = (uint32_t)be32(p);
+        p += 4;
+        if (flags & 1) {
+            if (end - p < 4)
+                goto bad;
+            g->nattrs = be32(p);
+            p += 4;
+            if (g->nattrs < 0 || g->nattrs > FC_MAXATTRS || end - p < 4L * g->nattrs + 5)
+                goto bad;
+            for (int i = 0; i < g->nattrs; i++) {
+                g->atag[i] = be16(p);
+                g->aref[i] = be16(p + 2);
+                p += 4;
+            }
+        }
+    }
+    return 0;
+bad:
+    fc_vg_free(g);
+    return -1;
+}
+void
+fc_vg_free(fc_vg *g)
+{
+    free(g->tag);
+    free(g->ref);
+    free(g->name);
+    free(g->cls);
+    memset(g, 0, sizeof *g);
+}
+
+/* chunked element: the chunk table is a Vdata (tbl_tag = VH) with fields origin[ndims] int32, chk_tag uint16, chk_ref uint16 */
+uint8_t *
+fc_chunked_logical(fc_file *f, const fc_dd *d, long *len, int *unsupported, fc_extent *ext, int maxext, int *next)
+{
+    fc_special s;
+    if (unsupported)
+        *unsupported = 0;
+    if (next)
+        *next = 0;
+    if (fc_special_info(f, d, &s) != 0 || s.special != FC_SPECIAL_CHUNKED) {
+        fc_error(f, "(%u,%u): malformed chunked description record", d->tag, d->ref);
+        return NULL;
+    }
+    long total = s.nt_size, nchunks = 1, cbytes = s.nt_size;
+    long nck[32];
+    for (int i = 0; i < s.ndims; i++) {
+        if (s.dim_len[i] <= 0 || s.chunk_len[i] <= 0) {
+            fc_error(f, "(%u,%u): chunked dimension %d has length %ld chunk length %ld", d->tag, d->ref, i, s.dim_len[i], s.chunk_len[i]);
+            return NULL;
+        }
+        total *= s.dim_len[i];
+        nck[i] = (s.dim_len[i] + s.chunk_len[i] - 1) / s.chunk_len[i];
+        nchunks *= nck[i];
+        cbytes *= s.chunk_len[i];
+    }
+    if (cbytes != s.chunk_size * s.nt_size && cbytes != s.chunk_size) {
+        fc_error(f, "(%u,%u): chunk size field %ld does not match chunk lengths (%ld bytes)", d->tag, d->ref, s.chunk_size, cbytes);
+        return NULL;
+    }
+    if (total > (1L << 28))
+        return NULL;
+    const fc_dd *th = fc_find_exact(f, FC_TAG_VH, s.chk_tbl_ref);
+    fc_vh        h;
+    if (!th || fc_vdata_header(f, th, &h) != 0) {
+        fc_error(f, "(%u,%u): chunk table vdata (1962,%u) missing or malformed", d->tag, d->ref, s.chk_tbl_ref);
+        return NULL;
+    }
+    if (h.nfields != 3 || h.order[0] != s.ndims || h.ivsize != 4 * s.ndims + 4) {
+        fc_error(f, "(%u,%u): chunk table vdata has %d fields, record size %d for %d dimensions", d->tag, d->ref, h.nfields, h.ivsize, s.ndims);
+        return NULL;
+    }
+    uint8_t *out = malloc((size_t)(total > 0 ? total : 1));
+    /* fill value everywhere first */
+    for (long i = 0; i < total; i++)
+        out[i] = s.fill_len > 0 ? s.fill[i % s.fill_len] : 0;
+    long         tlen = 0;
+    const fc_dd *td   = fc_find(f, FC_TAG_VS, s.chk_tbl_ref);
+    uint8_t     *tb   = NULL;
+    if (h.nvert > 0) {
+        int uns = 0;
+        tb      = td ? fc_logical_bytes(f, td, &tlen, &uns) : NULL;
+        if (!tb || tlen < h.nvert * h.ivsize) {
+            fc_error(f, "(%u,%u): chunk table data (1963,%u) missing or shorter than %ld records", d->tag, d->ref, s.chk_tbl_ref, h.nvert);
+            free(tb);
+            free(out);
+            return NULL;
+        }
+    }
+    int ne = 0;
+    for (long r = 0; r < h.nvert; r++) {
+        const uint8_t *rec = tb + r * h.ivsize;
+        long           org[32];
+        for (int i = 0; i < s.ndims; i++) {
+            org[i] = be32(rec + 4 * i);
+            if (org[i] < 0 || org[i] >= nck[i]) {
+                fc_error(f, "(%u,%u): chunk record %ld has origin %ld outside 0..%ld in dimension %d", d->tag, d->ref, r, org[i], nck[i] - 1, i);
+                free(tb);
+                free(out);
+                return NULL;
+            }
+        }
+        uint16_t ctag = be16(rec + 4 * s.ndims), cref = be16(rec + 4 * s.ndims + 2);
+        const fc_dd *cd = fc_find(f, fc_base(ctag), cref);
+        if (!cd) {
+            fc_error(f, "(%u,%u): chunk (%u,%u) listed in the chunk table does not exist", d->tag, d->ref, ctag, cref);
+            free(tb);
+            free(out);
+            return NULL;
+        }
+        long     cl  = 0;
+        int      uns = 0;
+        uint8_t *cb  = fc_logical_bytes(f, cd, &cl, &uns);
+        if (!cb) {
+            if (uns && unsupported)
+                *unsupported = 1;
+            free(tb);
+            free(out);
+            return NULL;
+        }
+        if (cl != cbytes) {
+            fc_error(f, "(%u,%u): chunk (%u,%u) holds %ld bytes, chunk size is %ld", d->tag, d->ref, ctag, cref, cl, cbytes);
+            free(cb);
+            free(tb);
+            free(out);
+            return NULL;
+        }
+        if (ext && ne < maxext) {
+            fc_extent e1[4];
+            int       n1 = 0;
+            long      sl = 0;
+            uint8_t  *sb = fc_stored_bytes(f, cd, &sl, e1, 4, &n1);
+            free(sb);
+            if (n1 > 0)
+                ext[ne++] = e1[0];
+        }
+        /* scatter the chunk into the array (row-major, last dimension fastest), dropping the ghost area */
+        long idx[32] = {0};
+        for (;;) {
+            long apos = 0, cpos = 0, inside = 1;
+            for (int i = 0; i < s.ndims; i++) {
+                long a = org[i] * s.chunk_len[i] + idx[i];
+                if (a >= s.dim_len[i])
+                    inside = 0;
+                apos = apos * s.dim_len[i] + a;
+                cpos = cpos * s.chunk_len[i] + idx[i];
+            }
+            if (inside)
+                memcpy(out + apos * s.nt_size, cb + cpos * s.nt_size, (size_t)s.nt_size);
+            int k = s.ndims - 1;
+            while (k >= 0 && ++idx[k] == s.chunk_len[k])
+                idx[k--] = 0;
+            if (k < 0)
+                break;
+        }
+        free(cb);
+    }
+    free(tb);
+    if (next)
+        *next = ne;
+    *len = total;
+    return out;
+}
+
+int
+fc_check_objects(fc_file *f)
+{
+    int before = f->nerr;
+    for (int i = 0; i < f->ndd; i++) {
+        const fc_dd *d = &f->dd[i];
+        if (d->off < 0)
+            continue;
+        if (fc_is_special(d->tag)) {
+            fc_special s;
+            if (fc_special_info(f, d, &s) != 0) {
+                fc_error(f, "(%u,%u): malformed special-element description record", d->tag, d->ref);
+                continue;
+            }
+            long     l   = 0;
+            int      uns = 0;
+            uint8_t *b   = s.special == FC_SPECIAL_CHUNKED ? fc_chunked_logical(f, d, &l, &uns, NULL, 0, NULL) : fc_logical_bytes(f, d, &l, &uns);
+            free(b);
+            continue;
+        }
+        if (d->tag == FC_TAG_VH) {
+            fc_vh h;
+            if (fc_vdata_header(f, d, &h) != 0) {
+                fc_error(f, "(1962,%u): malformed Vdata header", d->ref);
+                continue;
+            }
+            long sum = 0;
+            for (int k = 0; k < h.nfields; k++) {
+                if (h.off[k] != sum)
+                    fc_error(f, "(1962,%u): field %d offset %d, expected %ld", d->ref, k, h.off[k], sum);
+                sum += h.isize[k];
+            }
+            if (sum != h.ivsize)
+                fc_error(f, "(1962,%u): record size %d but fields add up to %ld", d->ref, h.ivsize, sum);
+            const fc_dd *vs = fc_find(f, FC_TAG_VS, d->ref);
+            if (h.nvert > 0) {
+                if (!vs)
+                    fc_error(f, "(1962,%u): %ld records but no data element (1963,%u)", d->ref, h.nvert, d->ref);
+                else {
+                    long     l   = 0;
+                    int      uns = 0;
+                    uint8_t *b   = fc_logical_bytes(f, vs, &l, &uns);
+                    if (b && l < h.nvert * (long)h.ivsize)
+                        fc_error(f, "(1962,%u): %ld records of %d bytes but data element holds %ld bytes", d->ref, h.nvert, h.ivsize, l);
+                    free(b);
+                }
+            }
+            for (int k = 0; k < h.nattrs; k++)
+                if (!fc_find(f, fc_base(h.atag[k]), h.aref[k]))
+                    fc_error(f, "(1962,%u): attribute %d refers to (%u,%u) which does not exist", d->ref, k, h.atag[k], h.aref[k]);
+        }
+        if (d->tag == FC_TAG_VG) {
+            fc_vg g;
+            if (fc_vgroup(f, d, &g) != 0) {
+                fc_error(f, "(1965,%u): malformed Vgroup record", d->ref);
+                continue;
+            }
+            for (int k = 0; k < g.nvelt; k++)
+                if ((g.tag[k] == FC_TAG_VG || g.tag[k] == FC_TAG_VH) && !fc_find(f, g.tag[k], g.ref[k]))
+                    fc_error(f, "(1965,%u) '%s': member %d refers to (%u,%u) which does not exist", d->ref, g.name, k, g.tag[k], g.ref[k]);
+            for (int k = 0; k < g.nattrs; k++)
+                if (!fc_find(f, fc_base(g.atag[k]), g.aref[k]))
+                    fc_error(f, "(1965,%u): attribute %d refers to (%u,%u) which does not exist", d->ref, k, g.atag[k], g.aref[k]);
+            fc_vg_free(&g);
+        }
+    }
+    return f->nerr - before;
+}
